@@ -23,6 +23,8 @@ BUDGET_S = {'quick': 300, 'thorough': 2400}
 ASSUMPTIONS = [
     'association key spellings equal the declared attribute spellings',
     'the API route is compared for populations whose join respects the declared multiplicities; rows are created referred-first',
+    'which pairs are linked depends on the model alone, not on models loaded earlier in the process (cross-model family: schemas '
+    'declaring the same class and attribute names with other types, one after the other in one process)',
     'inferred-schema inputs (no CREATE TABLE) are used only with positional rows whose values determine the types',
 ]
 ABSENT = '<absent>'
@@ -72,6 +74,10 @@ def schemas_():
                   [Assoc(1, 'B', ['X', 'Y'], True, True, '', 'A', ['P', 'Q'], True, True, ''),
                    Assoc(2, 'C', ['X', 'Y'], True, True, '', 'A', ['Q', 'P'], True, True, '')]),
                 {'A.P': [1, 2], 'A.Q': [1, 2], 'B.X': [1, 2], 'B.Y': [1, 2], 'C.X': [1, 2], 'C.Y': [ABSENT, 1, 2]}, (2, 1, 1)))
+    # the key attributes of int_key / id_key under a third type (cross-model family: same names, other types)
+    out.append((S('str_key', [('A', [('Id', 'STRING'), ('N', 'INTEGER')]), ('B', [('Bid', 'UNIQUE_ID'), ('A_Id', 'STRING')])],
+                  [Assoc(1, 'B', ['A_Id'], True, True, '', 'A', ['Id'], False, True, '')]),
+                {'A.Id': [ABSENT, '', '0', 'k'], 'B.A_Id': [ABSENT, '', '0', 'k', 'z']}, (2, 2)))
     out.append((S('phrased_non_reflexive', [('A', [('Id', 'UNIQUE_ID')]), ('B', [('Bid', 'INTEGER'), ('A_Id', 'UNIQUE_ID')])],
                   [Assoc(7, 'B', ['A_Id'], True, True, 'is held by', 'A', ['Id'], False, True, 'holds')]),
                 {'A.Id': [5, 7], 'B.A_Id': [0, 5, 9]}, (2, 2)))
@@ -198,7 +204,7 @@ def join_task(ctx, task):
     si, tier, pops = task
     schema, alphabet, caps = schemas_()[si]
     for rows in pops:
-        for style in ((0, 3) if tier == 'quick' else (0, 1, 2, 3)):
+        for style in ((0,) if tier == 'cross' else (0, 3) if tier == 'quick' else (0, 1, 2, 3)):
             ctx.count('loads')
             case = dict(kind='join', schema=si, rows=rows, style=style)
             text = '\n'.join(statements(schema, rows, style))
@@ -223,6 +229,60 @@ def join_task(ctx, task):
             ctx.distinct('join_cases', (si, repr(rows)))
             if nlinks:
                 ctx.distinct('nontrivial', ('join', si, repr(rows)))
+
+
+def cross_pairs():
+    '''Ordered pairs (i, j) of schemas that declare a class and attribute of the same names with different types: the
+    models are unrelated, but anything the loader remembers by name would carry over.'''
+    sch = [s for s, _, _ in schemas_()]
+    out = []
+    for i, a in enumerate(sch):
+        ta = dict(((k, n.upper()), t.upper()) for k, attrs in a.classes for n, t in attrs)
+        for j, b in enumerate(sch):
+            if i == j:
+                continue
+            tb = dict(((k, n.upper()), t.upper()) for k, attrs in b.classes for n, t in attrs)
+            if any(key in tb and tb[key] != t for key, t in ta.items()):
+                out.append((i, j))
+    return out
+
+
+def cover(si, tier):
+    '''A few populations of schema si that together use every value of its alphabet (greedy cover, deterministic).'''
+    schema, alphabet, caps = schemas_()[si]
+    pops = list(populations(schema, alphabet, caps, tier))
+    want = set((k, repr(v)) for k, vs in alphabet.items() for v in vs)
+    chosen = []
+    while want:
+        best, gain = None, 0
+        for rows in pops:
+            g = len(want & set(('%s.%s' % (kind, n), repr(v)) for kind, vals in rows for n, v in vals.items()))
+            if g > gain or (g == gain and g and len(rows) > len(best)):
+                best, gain = rows, g
+        if not best:
+            break
+        chosen.append(best)
+        want -= set(('%s.%s' % (kind, n), repr(v)) for kind, vals in best for n, v in vals.items())
+    return chosen
+
+
+def cross_task(ctx, task):
+    '''In a process of its own: load populations of schema i, then judge every population of schema j (join oracle).'''
+    si, sj, tier, pre, pops = task
+    schema = schemas_()[si][0]
+    for rows in pre:
+        try:
+            load(['\n'.join(statements(schema, rows, 0))])
+        except Exception:
+            pass        # judged by the join family
+    sub = core.Ctx(ctx.prop, ctx.tier, ctx.seed)
+    join_task(sub, (sj, 'cross', pops))
+    for v in sub.violations:
+        ctx.violation(v['sig'].replace('c03:join:', 'c03:cross:'), dict(v['case'], kind='cross', pre_schema=si, pre=pre), 'after loading %d populations of schema %s in the same process: %s' %
+                      (len(pre), schema.name, v['message']), v.get('expected'), v.get('observed'))
+    ctx.count('loads', sub.n('loads') + len(pre))
+    ctx.count('traces', sub.n('traces'))
+    ctx.count('cross_loads', sub.n('loads'))
 
 
 def small_inputs(tier):
@@ -378,7 +438,7 @@ def api_task(ctx, task):
         # ... and that admit a referred-first order (rows are listed referred classes first; reflexive: check explicitly)
         for ai, a in enumerate(schema.assocs):
             for s, ts in ref.fwd[ai].items():
-                if any(t >= s for t in ts):
+                if any(t > s for t in ts):       # (a row may refer to itself)
                     ok = False
         # an unset identifying value cannot be expressed through new() (it would become the type's default)
         for a in schema.assocs:
@@ -453,11 +513,22 @@ def run(ctx):
         for c in chunks(pops, 60):
             tasks.append((si, ctx.tier, c))
             api_tasks.append((si, ctx.tier, c))
-    ctx.pmap(join_task, tasks)
-    ctx.pmap(api_task, api_tasks)
+    ctx.pmap(join_task, tasks, fresh=True)
+    ctx.pmap(api_task, api_tasks, fresh=True)
+    # cross-model family: each task in a process of its own
+    ctasks = []
+    for si, sj in cross_pairs():
+        pre = cover(si, 'quick')
+        schema, alphabet, caps = schemas_()[sj]
+        pops = list(populations(schema, alphabet, caps, 'quick'))
+        for c in chunks(pops, 250):
+            ctasks.append((si, sj, ctx.tier, pre, c))
+    ctx.count('cross_pairs', len(cross_pairs()))
+    ctx.pmap(cross_task, ctasks, fresh=True)
+    ctx.require(ctx.n('cross_loads') >= 2000, 'too few loads in the cross-model family (%d)' % ctx.n('cross_loads'))
     small = small_inputs(ctx.tier)
     ctx.count('small_inputs', len(small))
-    ctx.pmap(order_task, [(si, rows, ctx.tier) for si, rows in small])
+    ctx.pmap(order_task, [(si, rows, ctx.tier) for si, rows in small], fresh=True)
     ctx.pmap(files_task, [(si, rows, ctx.tier) for si, rows in small[:: (4 if ctx.quick else 2)] if len(statements(schemas_()[si][0], rows)) <= 6])
     sch, al, cp = schemas_()[2]
     ctx.sample(dict(schema=sch.name, input='\n'.join(statements(sch, next(iter(populations(sch, al, cp, 'quick'))), 0))))
@@ -472,6 +543,8 @@ def replay(ctx, case):
     k = case['kind']
     if k == 'join':
         join_task(ctx, (case['schema'], 'thorough', [case['rows']]))
+    elif k == 'cross':
+        cross_task(ctx, (case['pre_schema'], case['schema'], 'thorough', case['pre'], [case['rows']]))
     elif k == 'api':
         api_task(ctx, (case['schema'], 'thorough', [case['rows']]))
     elif k == 'order':
@@ -484,7 +557,10 @@ def coverage(ctx):
     return dict(
         states=ctx.nd('join_cases') + ctx.n('small_inputs'), transitions=ctx.n('loads'),
         traces_validated_against_impl=ctx.n('traces'), evaluations=ctx.n('loads'),
-        populations=ctx.n('populations'), api_populations=ctx.n('api_cases'), order_inputs=ctx.n('small_inputs'),
+        populations=ctx.n('populations'), cross_model=dict(ordered_schema_pairs=ctx.n('cross_pairs'), loads=ctx.n('cross_loads'),
+                                                            what='populations covering the alphabet of schema i are loaded, then every '
+                                                            'population of schema j, in a process of its own per task'),
+        api_populations=ctx.n('api_cases'), order_inputs=ctx.n('small_inputs'),
         distinct_nontrivial=ctx.nd('nontrivial'),
         rule='join: every population of the bounded alphabets per schema, each in 2 (thorough 4) value/insert styles; non-trivial = '
              'populations with at least one link; order: every permutation and every contiguous <=3-way split in every call order of '
